@@ -101,7 +101,7 @@ def run_fide(ctx):
             for i in range(n_cases):
                 yield fide_model(g, g.rng.choice(sizes))
             yield from gen.nest_models(FIDE_OPS, chunk=4)
-            yield from gen.case_twin_models()
+            yield from gen.case_twin_models(cardinal=False)
         for m in models():
             req = sx.dumps(tag("fide_write", spec.fm_sx(m)))
             mrep = sx.loads(ctx.model.call_raw(req))
@@ -261,7 +261,7 @@ def run_fide_third_party(ctx):
             for i in range(n_cases):
                 yield fide_model(g, g.rng.choice([1, 2, 4, 7, 12]))
             yield from gen.nest_models(FIDE_OPS, chunk=4)
-            yield from gen.case_twin_models()
+            yield from gen.case_twin_models(cardinal=False)
         for m in models():
             d = emit_fide(m, g.rng, g)
             path = sc.path("xml")
